@@ -445,6 +445,10 @@ func cmdReplay(args []string) {
 	if os.Getenv("VERIF_REPLAY_USE_KNOWN") == "1" {
 		opt.Known = LoadKnown(knownPath())
 	}
+	if os.Getenv("VERIF_REPLAY_ALL") == "1" {
+		// development aid: all oracles, no stop at the first violation
+		opt.Props, opt.Stop = nil, false
+	}
 	res := Replay(rf.Trace, opt)
 	for _, l := range res.Sample {
 		fmt.Println(l)
